@@ -1,5 +1,5 @@
 CONSTANT Alphabet = {"w0", "w1", "w2", "p0", "q1", "f0", "r1", "t"}
-CONSTANT N = 6
+CONSTANT N = 5
 INIT Init
 NEXT Next
 INVARIANT Emit
